@@ -18,9 +18,9 @@ const pkgPdataJSON = modPrefix + "/pdata/internal/json"
 
 func init() {
 	register(&Property{
-		ID:  "C08",
-		Run: runC08,
-		Explain: "Static structural necessary conditions of codec agreement: (R1) JSON field coverage – for every switch over the JSON key in the hand-written decoders and the protobuf struct its cases fill, every field (and every one-of alternative) has a case for both its proto name and its lowerCamel JSON name, and that case writes that field; (R2) reader/type agreement – each case reads with the helper matching the field's Go type: 64-bit integers through the string-or-number helpers (never jsoniter's native reader), doubles through the NaN/Inf-aware helper, enums through ReadEnumValue with that enum's own name table; the 64-bit helpers never pass through floating point; (R3) wire-table agreement of the generated protobuf code – for every message the set of field numbers in the struct tags (including one-of alternatives) equals the set of case labels of its Unmarshal switch; (R4) migration of deprecated scope fields clears the deprecated field on every path on which it copied it (decode→encode reaches a fixed point); (R5) bounded ID decoding – every hex.Decode into a fixed-size ID is guarded by a length test against hex.DecodedLen.",
+		ID:         "C08",
+		Run:        runC08,
+		Explain:    "Static structural necessary conditions of codec agreement: (R1) JSON field coverage – for every switch over the JSON key in the hand-written decoders and the protobuf struct its cases fill, every field (and every one-of alternative) has a case for both its proto name and its lowerCamel JSON name, and that case writes that field; (R2) reader/type agreement – each case reads with the helper matching the field's Go type: 64-bit integers through the string-or-number helpers (never jsoniter's native reader), doubles through the NaN/Inf-aware helper, enums through ReadEnumValue with that enum's own name table; the 64-bit helpers never pass through floating point; (R3) wire-table agreement of the generated protobuf code – for every message the set of field numbers in the struct tags (including one-of alternatives) equals the set of case labels of its Unmarshal switch; (R4) migration of deprecated scope fields clears the deprecated field on every path on which it copied it (decode→encode reaches a fixed point); (R5) bounded ID decoding – every hex.Decode into a fixed-size ID is guarded by a length test against hex.DecodedLen.",
 		NotDecided: "Byte-exact round trips, Size()==len(Marshal()), agreement of values (NaN, extremes), totality on arbitrary bytes (would need a bounds proof of ~20k lines of generated decoding code). That every decode path migrates deprecated fields is NOT claimed: the property statement does not require it (see DESIGN.md, correction of C08.R4).",
 		Assumes:    []string{"jsoniter and gogo-proto runtime behave as documented", "the generated struct tags are the wire contract"},
 		Technique:  "static analysis: switch-region extraction on SSA + field coverage against struct tags (types), reader/type table, AST table extraction of generated code, pairing on all paths",
